@@ -67,6 +67,34 @@ def _helpers(f) -> bool:
         f.name.startswith("_") and f.name != "_get_length_formatter"
 
 
+def _label_texts(prog, f_ax, pmq, m, axis):
+    """[(unit text, label text)] of the axis label prepare_axis sets for
+    plot mode m, one per length unit, by evaluation; [] if no label is set;
+    None if a label does not evaluate to a text"""
+    from ..lib import const_eval, _NoValue
+    uq = prog.cls("evo.core.units.Unit").qualname
+    out = []
+    for um in ("millimeters", "centimeters", "meters", "kilometers"):
+        if um not in (prog.enum_members(uq) or []):
+            continue
+        it = Interp(prog, inline=lambda fn: _helpers(fn) or fn.qualname ==
+                    PL + "plot_mode_to_idx", max_depth=4)
+        r = it.run(f_ax, {"plot_mode": tm.enum(pmq, m),
+                          "length_unit": tm.enum(uq, um)})
+        uval = it.get_attr(tm.enum(uq, um), "value", None, tm.TRUE)
+        for e in r.of_kind("call"):
+            n = e.data.get("name") or ""
+            if n == f".set_{axis}label" and e.data["args"] and \
+                    tm.fold(e.live, lambda t: True if is_call_to(
+                        t, "builtins.isinstance") else None) is not False:
+                try:
+                    out.append((tm.const_val(uval),
+                                const_eval(e.data["args"][0])))
+                except _NoValue:
+                    return None
+    return out
+
+
 def _col(base: T, idx: T) -> T:
     return tm.sub(base, T("tuple", ALL, idx))
 
@@ -116,7 +144,9 @@ def check(ctx):
         for um in ("millimeters", "centimeters", "meters", "kilometers"):
             if um not in (prog.enum_members(uq) or []):
                 continue
-            ru = Interp(prog, inline=_helpers).run(
+            ru = Interp(prog, inline=lambda fn: _helpers(fn) or
+                        fn.qualname == PL + "plot_mode_to_idx",
+                        max_depth=4).run(
                 f_ax, {"plot_mode": tm.enum(pmq, m),
                        "length_unit": tm.enum(uq, um)})
             seen_ = set()
@@ -140,6 +170,16 @@ def check(ctx):
                     else "")
             ok = f"${letter}$" in txt and lab is not None and any(
                 x is unit_v for x in lab.walk())
+            if not ok:
+                # composed by helpers / looked up by index: evaluated for
+                # every unit with the index helper looked through
+                ev = _label_texts(prog, f_ax, pmq, m, axis)
+                if ev is not None:
+                    ok = bool(ev) and all(
+                        f"${letter}$" in t_ and f"({u_})" in t_
+                        for u_, t_ in ev)
+                    if not ok and ev:
+                        lab = const(ev[0][1])
             if ok and axis in cond_labels:
                 ctx.ob("C20.1", f_ax, False,
                        f"prepare_axis({m}): the {axis}-axis label is "
@@ -153,6 +193,9 @@ def check(ctx):
                    f"prepare_axis({m}): {axis}-axis label is {fmt(lab)} — "
                    f"the data on that axis is coordinate {letter}",
                    key=f"C20.1:label:{m}:{axis}")
+        if len(m) == 2 and "z" in labels and \
+                _label_texts(prog, f_ax, pmq, m, "z") == []:
+            del labels["z"]        # unreachable once the indices are known
         if len(m) == 2:
             ctx.ob("C20.1", f_ax, "z" not in labels,
                    f"prepare_axis({m}): no z label in 2-D",
@@ -459,6 +502,17 @@ def _ix(t: Optional[T], i) -> Optional[T]:
     return None
 
 
+def _other_builder(res):
+    """a line-collection constructor reached without colored_line_collection
+    (a helper added later was looked through)"""
+    for e in res.of_kind("call"):
+        n = e.data.get("name") or ""
+        if ("LineCollection" in n or "Line3DCollection" in n) and \
+                not tm.is_const(e.live, False):
+            return n
+    return None
+
+
 def _segments(ctx, prog):
     """decided per plot mode by evaluating the entry segs[s][v][k] (vertex v
     of the s-th segment, plot axis k) of whatever construction is used:
@@ -537,7 +591,12 @@ def _segments(ctx, prog):
             and not pe[3] and pe[2] is tm.param("array") and \
             is_call_to(pe[0], ".to_rgba") and pe[0].args[1][0] is T(
                 "elem", tm.param("array"), pe[1]) and "step" not in b
-    ctx.ob("C20.3", cl[0] if cl else g, ok,
+    if not cl and _other_builder(rg):
+        ctx.undecidable("C20.3", g, "traj_colormap builds its segments "
+                        "through another helper than colored_line_collection "
+                        f"({_other_builder(rg)}): not evaluated")
+    else:
+      ctx.ob("C20.3", cl[0] if cl else g, ok,
            "traj_colormap: one colour per value of `array`, in order, on "
            "the trajectory's own positions" if ok else
            "traj_colormap: colours / positions handed to the line "
@@ -558,7 +617,13 @@ def _segments(ctx, prog):
              } == {(even, p1), (odd, p2)} and \
             tm.is_const(b.get("step"), 2) and \
             b.get("plot_mode") is tm.param("plot_mode")
-    ctx.ob("C20.3", cl[0] if cl else h, ok,
+    if not cl and _other_builder(rh):
+        ctx.undecidable("C20.3", h, "draw_correspondence_edges builds its "
+                        "segments through another helper than "
+                        f"colored_line_collection ({_other_builder(rh)}): "
+                        "not evaluated")
+    else:
+      ctx.ob("C20.3", cl[0] if cl else h, ok,
            "correspondence edges: trajectory 1 at even rows, trajectory 2 "
            "at odd rows, one segment per pose pair (step=2)" if ok else
            "correspondence edges: interleaving / step deviate",
@@ -1109,10 +1174,49 @@ def _formatter(ctx, prog):
             div[0].args[2].op == "sub" and \
             div[0].args[2].args[1] is tm.param("length_unit") and \
             "METER_SCALE_FACTORS" in fmt(div[0].args[2].args[0])
-    ctx.ob("C20.5", f, ok,
-           "tick formatter shows x / METER_SCALE_FACTORS[unit]" if ok else
-           "tick formatter does not divide by the unit's meter factor",
-           key="C20.5:formatter")
+    why = "tick formatter does not divide by the unit's meter factor"
+    if not ok:
+        # a conversion helper / a precomputed factor: evaluated for x = 1 m
+        # in every length unit, helpers looked through
+        from ..lib import const_eval, _NoValue
+        uq_ = prog.cls("evo.core.units.Unit").qualname
+        table = {"millimeters": 1e-3, "centimeters": 1e-2, "meters": 1.0,
+                 "kilometers": 1e3}
+        vals = {}
+        try:
+            for um, fac in table.items():
+                if um not in (prog.enum_members(uq_) or []):
+                    continue
+                it2 = Interp(prog, max_depth=4)
+                it2.run(f, {"length_unit": tm.enum(uq_, um)})
+                k2 = [k for k in it2.closures if k.endswith(".formatter")]
+                if not k2:
+                    raise _NoValue("no formatter closure")
+                node, frame = it2.closures[k2[0]]
+                r3 = it2.inline_closure(k2[0], node, frame,
+                                        [const(1.0), const(0)], [], frame,
+                                        tm.TRUE)
+                shown = [x for x in r3.walk() if is_call_to(x, ".format")
+                         and x.args[1]]
+                if len(shown) != 1:
+                    raise _NoValue("format call")
+                vals[um] = (const_eval(shown[0].args[1][0]), 1.0 / fac)
+            ok = bool(vals) and all(abs(a - b) <= 1e-12 * abs(b)
+                                    for a, b in vals.values())
+            if not ok:
+                bad_ = [(u, a, b) for u, (a, b) in vals.items()
+                        if abs(a - b) > 1e-12 * abs(b)]
+                why = (f"tick formatter shows 1 m as {bad_[0][1]:g} "
+                       f"{bad_[0][0]}, expected {bad_[0][2]:g}") if bad_ \
+                    else why
+        except _NoValue as ex:
+            ctx.undecidable("C20.5", f, f"tick formatter value not "
+                            f"evaluated ({ex})")
+            ok = None
+    if ok is not None:
+        ctx.ob("C20.5", f, ok,
+               "tick formatter shows x / METER_SCALE_FACTORS[unit]" if ok
+               else why, key="C20.5:formatter")
     g = prog.func(PL + "prepare_axis")
     uq = prog.cls("evo.core.units.Unit").qualname
     pmq = prog.cls(PM).qualname
